@@ -86,7 +86,7 @@ auxpow!(c12_doge_below, 130, 0x620101, Some(0x620102), false, 0, 0);
 auxpow!(c12_nmc_max, 130, 0xffffffff, Some(0x10101), false, 3, 3);
 //@ id=C12 tier=thorough name=c12_none_nmcver timeout=1800 role=auxpow_skip bound=coin-without-AuxPoW,version-0x10101,no-section mem=20
 auxpow!(c12_none_nmcver, 130, 0x10101, None, false, 0, 0);
-//@ id=C12 tier=quick name=c12_nmc_b33 timeout=2400 role=auxpow_skip bound=version==0x10101,coinbase-branch-of-33-hashes(beyond-32-tree-levels),blockchain-branch-0 mem=24 fsarr=2048
+//@ id=C12 tier=thorough name=c12_nmc_b33 timeout=7200 role=auxpow_skip bound=version==0x10101,coinbase-branch-of-33-hashes(beyond-32-tree-levels),blockchain-branch-0 mem=24 fsarr=2048
 auxpow!(c12_nmc_b33, 1400, 0x10101, Some(0x10101), false, 33, 0);
 //@ id=C12 tier=thorough name=c12_doge_b0_b40 timeout=3600 role=auxpow_skip bound=version==0x620102,branches-0/40 mem=24 fsarr=2048
 auxpow!(c12_doge_b0_b40, 1650, 0x620102, Some(0x620102), false, 0, 40);
